@@ -5,7 +5,18 @@ package lucene
 // Bounded stand-in / counterexample search for property C05.
 // Operator precedence, associativity and grouping follow the documented table.
 // Injected into the repository root with `go test -overlay`; never written to /repo.
-// Interface: /verif/harness/README.md.
+// Interface: /verif/harness/README.md (VERIF_TIER, VERIF_SEED, VERIF_REPORT).
+//
+// The oracle is the property statement: trees are built with the public
+// constructors of pkg/lucene/expr, printed by a printer that knows only the
+// documented precedence table (OR < AND < NOT < ^ < ~ < - < +, binary operators
+// left-associative, field:value binds tightest), and compared with what Parse
+// returns; relations between two Parse runs are used where the statement is one.
+// Every failure is classified: it is attributed to a failing operand if there is
+// one, otherwise minimised, and the tag names the minimal shape.  Failures of the
+// current code are findings and are reported, never filtered.
+// The common core at the end of the file is shared (as a copy with another
+// identifier prefix) with the other parser stand-ins.
 
 import (
 	"encoding/json"
@@ -525,10 +536,11 @@ func vc05build(n *vc05node) *expr.Expression {
 
 // decorations of a node, addressed by its preorder index in the tree
 const (
-	vc05dJuxt   = 1 // AND node: write no operator, only whitespace
-	vc05dParen1 = 2 // one redundant pair of parentheses around the node
-	vc05dParen2 = 4 // two more redundant pairs
-	vc05dValue  = 8 // leaf: redundant parentheses around the field's value
+	vc05dJuxt   = 1  // AND node: write no operator, only whitespace
+	vc05dParen1 = 2  // one redundant pair of parentheses around the node
+	vc05dParen2 = 4  // two more redundant pairs
+	vc05dValue  = 8  // leaf: redundant parentheses around the field's value
+	vc05dElems  = 16 // value-list leaf: redundant parentheses around every element (the operands of its ORs)
 )
 
 type vc05printer struct {
@@ -585,7 +597,13 @@ func (p *vc05printer) node(n *vc05node, minPrec int, operand bool) {
 			if d&vc05dValue != 0 && i == n.vs {
 				p.emit(vc05ts("("))
 			}
-			p.emit(t)
+			if elem := d&vc05dElems != 0 && n.form == "list" && i > 2 && i < len(n.toks)-1 && t.k != 'k'; elem {
+				p.emit(vc05ts("("))
+				p.emit(t)
+				p.emit(vc05ts(")"))
+			} else {
+				p.emit(t)
+			}
 			if d&vc05dValue != 0 && i == n.ve-1 {
 				p.emit(vc05ts(")"))
 			}
@@ -1160,8 +1178,8 @@ func vc05msgLess(a, b vc05msg) bool {
 
 func (c *vc05cat) add(m vc05msg) {
 	for i, o := range c.best {
-		if o.input == m.input { // one message per input
-			if vc05msgLess(m, o) {
+		if o.input == m.input { // one message per input, the shorter one
+			if len(m.text) < len(o.text) || (len(m.text) == len(o.text) && m.text < o.text) {
 				c.best[i] = m
 			}
 			return
